@@ -9,6 +9,7 @@ Part B (histories) : M10 forked twins - a history creates several environments (
 
 from __future__ import annotations
 
+import itertools
 import random
 from typing import Any
 
@@ -394,6 +395,8 @@ def judge_implicit(ctx: core.Ctx, case: dict[str, Any]) -> None:
 def judge(ctx: core.Ctx, case: dict[str, Any]) -> None:
     if case["kind"] == "rewrite":
         judge_rewrite(ctx, case)
+    elif case["kind"] == "wsgrid":
+        judge_wsgrid(ctx, case)
     elif case["kind"] == "implicit":
         judge_implicit(ctx, case)
     else:
@@ -538,8 +541,52 @@ def implicit_grid():
                 yield {"kind": "implicit", "steps": steps}
 
 
+# closing delimiters of every width combination (1-3 characters each, independently for tags, output statements and comments), one set
+# whose comment delimiter holds hyphens of its own, and opening delimiters of unequal width too
+WS_ENDS = {"tag": {1: "]", 2: "%]", 3: "%%]"}, "out": {1: "}", 2: "$}", 3: "$$}"}, "com": {1: ")", 2: "*)", 3: "**)"}}
+WS_STARTS = {"tag": {1: "[", 2: "[%", 3: "[%%"}, "out": {1: "{", 2: "{$", 3: "{$$"}, "com": {1: "(", 2: "(*", 3: "(**"}}
+WS_BODIES = [
+    ("a O x O-  \n b", {"x": 1}), ("a  O- x O   b", {"x": 1}), ("a  O- x O-   b", {"x": 1}), ("a C note C-   b", {}), ("a  C- note C  b", {}), ("a  C- note C-  b", {}),
+    ("a T assign v = 1 T-  b", {}), ("a  T- assign v = 1 T  b", {}), ("a T if a T-  y  T- endif T-  b", {"a": 1}), ("a T raw T-  r  T- endraw T-  b", {}), ("a T raw T  r  T endraw T  b", {}),
+    ("a T doc T-  d  T enddoc T-  b", {}), ("a T comment T  c  T endcomment T-  b", {}), ("a T liquid\n echo x\n T-  b", {"x": 2}), ("a T # note T-  b", {}),
+    ("a O x O  b C n C  c T echo x T  d", {"x": 3}), ("a O x O-  b C n C-  c T echo x T-  d", {"x": 3}), ("a  O- x O  b  C- n C  c  T- echo x T  d", {"x": 3}),
+    ("O x O-  O x O-  C n C-  O x O", {"x": 4}),
+]
+
+
+def ws_grid():
+    sets = []
+    for tw, ow, cw in itertools.product((1, 2, 3), repeat=3):
+        sets.append(["[%", WS_ENDS["tag"][tw], "{$", WS_ENDS["out"][ow], "(*", WS_ENDS["com"][cw]])
+        sets.append([WS_STARTS["tag"][tw], "%]", WS_STARTS["out"][ow], "$}", WS_STARTS["com"][cw], "*)"])
+    sets.append(["<%", "%>", "<<", ">>", "<!--", "--!"])
+    sets.append(["<%", "%>", "<<", "->>", "<!", "-!"])
+    sets.append(["<%", "-%>", "<<", ">", "<!", "!!!>"])
+    for ds in sets:
+        for body, data in WS_BODIES:
+            yield {"kind": "wsgrid", "delims": ds, "body": body, "data": V.enc(data)}
+
+
+def judge_wsgrid(ctx: core.Ctx, case: dict[str, Any]) -> None:
+    ds, body, data = case["delims"], case["body"], V.dec(case["data"])
+    sd, sc = print_body(body, DEFAULT), print_body(body, ds)
+    cfg = {"template_comments": True, "mode": "strict"}
+    a = drv.parse_and_render(drv.make_env(dict(cfg, delims=DEFAULT)), sd, data)
+    b = drv.parse_and_render(drv.make_env(dict(cfg, delims=ds)), sc, data)
+    ctx.count("whitespace_grid_rewrites")
+    if a.key() == b.key():
+        ctx.ok((sd, tuple(ds)), nontrivial=a.ok and "-" in sd)
+        return
+    kinds = "+".join(sorted({{"O": "output", "C": "comment", "T": "tag"}[p[0]] for p in body.split(" ") if p in ("T-", "O-", "C-")}))
+    ctx.evaluations += 1
+    ctx.violation(f"rewrite-differs:whitespace-control:{kinds}", f"default delimiters: {sd!r} -> {a.brief()}; delimiters {ds}: {sc!r} -> {b.brief()}", {"default": sd, "custom": sc, "delims": ds})
+
+
 def cases(ctx: core.Ctx):
     rng = ctx.rng("cases")
+    for gi, c in enumerate(ws_grid()):
+        if gi % ctx.nshards == ctx.shard:
+            yield c
     for gi, c in enumerate(implicit_grid()):
         if gi % ctx.nshards == ctx.shard and (ctx.tier != "quick" or gi % 2 == 0):
             yield c
